@@ -92,6 +92,21 @@ CLAIMED = {
    note='Trusted: rustc MIR, extractor. find_kmer_matches_seq2_hashed is deliberately exempt from TS-8 (its pushes are already in order).',
    technique='static analysis: data-flow provenance of allocation sizes, sibling agreement, must-pass-through (typestate) on the CFG',
    ref='DESIGN.md section 2, C19'),
+
+ 'C07': dict(level='proof',
+   text='Static proof over all MIR paths of the structural invariants the overlap queries rest on: (TS-2) in Node::{insert,repair,'
+        'rotate_left,rotate_right} every node object is refreshed by update_height and update_max after its last structural '
+        'change before it is returned or linked into the tree, and both refresh functions consult both children; (TS-3) repair '
+        'post-dominates the child update in insert, the balanced-case guard is |left_h - right_h| <= 1 and the other edge always '
+        'rotates self; (SB-1) the shared and mutable iterators prune with the same three predicates and intersect is the four '
+        'half-open comparisons; (TS-4) array-backed tree: mutation clears `indexed`, index = sort; index_core; true, find_into '
+        'reads the index only behind the refusing guard; (SG-1) no public API hands out &mut to a key/node; (SB-8) AnnotMap insert '
+        'and find key by refid and build the same interval. Correctness of the pruning predicates for every tree shape and of '
+        'the implicit-tree index arithmetic is NOT decided.',
+   note='Trusted: rustc MIR, extractor, points-to/effect engine (flow-insensitive, conservative for call results), typestate engine. '
+        'Summaries "callee leaves its receiver fresh" for repair/rotate_*/insert are verified by the same rule in the callee.',
+   technique='static analysis: typestate (may-stale) dataflow over MIR with points-to, post-dominance, guard normalisation, sibling cross-check',
+   ref='DESIGN.md section 2, C07'),
 }
 
 NOT_BUILT = 'rule not built yet (see DESIGN.md section 6)'
